@@ -301,6 +301,17 @@ func subjectFor(r *mon.Rec, kind string, idx int, typed map[int]string) subject 
 			}
 			return opsOf(d)
 		}, true}
+	case "v6dec-nc":
+		// decoded from wire bytes the library's own encoder would not have produced (so that "keep what was received"
+		// and "encode what is held" differ): bare and relayed
+		w := gen6.NonCanonical(seedRng())
+		return subject{"decoded non-canonical DHCPv6 message", func() []op {
+			d, err := dhcpv6.FromBytes(append([]byte{}, w...))
+			if err != nil {
+				return nil
+			}
+			return opsOf(d)
+		}, true}
 	case "opt6":
 		return subject{"standalone DHCPv6 option", func() []op {
 			rng := seedRng()
@@ -426,7 +437,7 @@ func opt4(r *rand.Rand) []op {
 	return ops
 }
 
-var kinds = []string{"v4gen", "v4dec", "v6gen", "v6dec", "opt6", "duid", "opt4", "opt4"}
+var kinds = []string{"v4gen", "v4dec", "v6gen", "v6dec", "v6dec-nc", "opt6", "duid", "opt4", "opt4"}
 
 // raceRun: two goroutines run the same read-only call list on one value concurrently (only meaningful under -race).
 func raceRun(s subject) {
